@@ -78,6 +78,12 @@ def main():
         if bad:
             rep.violation({"crosscheck": bad[:3]}, {"note": "extracted runner and vm_compute disagree"},
                           kind="extraction-crosscheck")
+    if tier == "thorough" and ok and replay is None and not os.environ.get("VERIF_NO_COQCHK"):
+        chk = coqaudit.coqchk(pid)
+        extra["coqchk"] = chk
+        if not chk.get("ok"):
+            proof["broken"].append("coqchk did not accept the compiled Props files: " + str(chk)[:800])
+            proof["discharged"] = min(proof["discharged"], max(0, proof["obligations"] - 1))
     if proof["broken"] and not rep.violations:
         rep.violation({"proof": proof["broken"]}, {"theorems": proof["theorems"], "note":
                       "a proof obligation / the build no longer checks; the numeric search found no failing input"},
